@@ -32,7 +32,13 @@ int main() {
         if (o == "tri") { d = (size_t)L(t[1]); kind = (int)L(t[2]); scale = t.size() > 3 ? std::atof(t[3].c_str()) : 1;
           if (kind == 0) tri.reset(new FT(d));
           else if (kind == 2) tri.reset(new CT(d));
-          else { Eigen::MatrixXd m(d, d); Eigen::VectorXd off(d); size_t k = 4; for (size_t i = 0; i < d; ++i) for (size_t j = 0; j < d; ++j) m(i, j) = (double)L(t[k++]); for (size_t i = 0; i < d; ++i) off(i) = (double)L(t[k++]); tri.reset(new FT((unsigned)d, m, off)); }
+          else { Eigen::MatrixXd m(d, d); Eigen::VectorXd off(d); size_t k = 4; for (size_t i = 0; i < d; ++i) for (size_t j = 0; j < d; ++j) m(i, j) = (double)L(t[k++]); for (size_t i = 0; i < d; ++i) off(i) = (double)L(t[k++]);
+            if (kind == 1) tri.reset(new FT((unsigned)d, m, off));
+            else {   // kinds 3, 4, 5: a plain triangulation whose matrix / offset are changed afterwards (3: matrix then offset, 4: offset only, 5: offset then matrix)
+              tri.reset(new FT(d));
+              if (kind == 3) { tri->change_matrix(m); tri->change_offset(off); }
+              else if (kind == 4) tri->change_offset(off);
+              else { tri->change_offset(off); tri->change_matrix(m); } } }
           return "tri"; }
         if (o == "simp") { size_t dd = (size_t)L(t[1]); d = dd; V v; size_t k = 2; for (size_t i = 0; i < dd; ++i) v.push_back((int)L(t[k++])); size_t np = (size_t)L(t[k++]); SH::OrderedSetPartition ps;
           for (size_t a = 0; a < np; ++a) { size_t sz = (size_t)L(t[k++]); std::vector<std::size_t> p; for (size_t b = 0; b < sz; ++b) p.push_back((std::size_t)L(t[k++])); ps.push_back(p); }
